@@ -37,4 +37,9 @@ def choose : Nat → Nat → Nat
   | 0, _ + 1 => 0
   | n + 1, k + 1 => choose n k + choose n (k + 1)
 
+/-- all sub-lists with `a ≤ length ≤ b`, by increasing length -/
+def subsetsL {α : Type} (l : List α) (a b : Nat) : List (List α) :=
+  (List.range (b + 1 - a)).flatMap (fun i => combs (a + i) l)
+
+
 end Pharmpy.C18
